@@ -47,7 +47,8 @@ Known_C05_2(t, a, b) == DirNeutral(t, a) /\ DirNeutral(t, b)
 \* whose members mix R and L -- is dropped as a whole, and a less specific entry that also covers the pair still applies
 Covers(t, k, a, b) == a \in KeyGlyphs(t.groups, t.kerning[k].l, 1, Exported(t)) /\ b \in KeyGlyphs(t.groups, t.kerning[k].r, 2, Exported(t))
 Known_C05_3(t, a, b, adv) ==
-  /\ Known_C05_1(t, a, b)
+  \* (the deciding entry itself is dropped because the pair is mixed -- a glyph-glyph exception -- or because its class side
+  \*  mixes R and L members; what distinguishes the finding is that ANOTHER entry covering the pair supplies the value)
   /\ \E k \in 1..Len(t.kerning) : k # Deciding(t.kerning, t.groups, Exported(t), a, b) /\ Covers(t, k, a, b) /\ Quant(t.kerning[k].v, t.q) = adv
 
 \* Known finding F-C05-4: the source declares no glyph classes (no public.openTypeCategories, no GDEF in the feature file), so
@@ -56,6 +57,15 @@ Known_C05_3(t, a, b, adv) ==
 \* can never apply
 Declared(t) == Has(t, "declared") /\ t.declared
 Known_C05_4(t, a, b, adv) == ~Declared(t) /\ Has(t, "declared") /\ (IsMarkGlyph(t.F, a) \/ IsMarkGlyph(t.F, b)) /\ adv = 0
+
+\* Known finding F-C05-5 (same root as F-C05-1: a class pair is treated as a whole): the deciding entry has a class side one of whose
+\* members is a left-to-right glyph (a digit, say); the writer then emits the left-to-right value record for the whole class pair,
+\* and its member pairs made of right-to-left-script glyphs with NEUTRAL bidi class get the advance but no x-placement
+Known_C05_5(t, a, b) ==
+  LET d == Deciding(t.kerning, t.groups, Exported(t), a, b) IN
+  d # 0 /\ (~IsGlyphKey(t.kerning[d].l) \/ ~IsGlyphKey(t.kerning[d].r)) /\
+  LET ms == KeyGlyphs(t.groups, t.kerning[d].l, 1, Exported(t)) \cup KeyGlyphs(t.groups, t.kerning[d].r, 2, Exported(t))
+  IN "L" \in UNION {Bidi(t, g) : g \in ms}
 
 AllLangs(t) == UNION {Languages(t.F, t.tags[k].tag) : k \in 1..Len(t.tags)}
 Triples(t) == {x \in (1..Len(t.tags)) \X AllLangs(t) \X Exported(t) \X Exported(t) :
@@ -77,7 +87,9 @@ MixedOff(t) == {x \in Triples(t) : Mixed(t, x[3], x[4])
 MixedKnown(t) == {x \in MixedOff(t) : Known_C05_3(t, x[3], x[4], PairValue(t.F, t.tags[x[1]].tag, x[2], x[3], x[4]).adv)}
 MixedBad(t) == MixedOff(t) \ MixedKnown(t)
 RtlWanted(t, x) == t.tags[x[1]].rtl /\ "L" \notin (Bidi(t, x[3]) \cup Bidi(t, x[4])) /\ ~Mixed(t, x[3], x[4])
-PlcBad(t)  == {x \in Triples(t) : RtlWanted(t, x) /\ ~Known_C05_2(t, x[3], x[4]) /\ ~Known_C05_1(t, x[3], x[4])
+PlcKnown5(t) == {x \in Triples(t) : RtlWanted(t, x) /\ ~Known_C05_2(t, x[3], x[4]) /\ ~Known_C05_1(t, x[3], x[4]) /\ Known_C05_5(t, x[3], x[4])
+                                  /\ LET v == PairValue(t.F, t.tags[x[1]].tag, x[2], x[3], x[4]) IN v.plc # v.adv}
+PlcBad(t)  == {x \in Triples(t) : RtlWanted(t, x) /\ ~Known_C05_2(t, x[3], x[4]) /\ ~Known_C05_1(t, x[3], x[4]) /\ ~Known_C05_5(t, x[3], x[4])
                                   /\ LET v == PairValue(t.F, t.tags[x[1]].tag, x[2], x[3], x[4]) IN v.plc # v.adv}
 PlcKnown(t) == {x \in Triples(t) : RtlWanted(t, x) /\ Known_C05_2(t, x[3], x[4])
                                   /\ LET v == PairValue(t.F, t.tags[x[1]].tag, x[2], x[3], x[4]) IN v.plc # v.adv}
@@ -99,7 +111,7 @@ Next ==
          w == IF ab # {} THEN Witness(ab) ELSE IF mb # {} THEN Witness(mb) ELSE IF pb # {} THEN Witness(pb)
               ELSE IF lb # {} THEN Witness(lb) ELSE Witness(yb)
      IN PrintT(<<"VERDICT", t.tid, p, "none", Cardinality(Triples(t)), Cardinality(AdvKnown(t)), Cardinality(PlcKnown(t)),
-                 ToString(w), Cardinality(MixedKnown(t)), Cardinality(AdvKnown4(t))>>)
+                 ToString(w), Cardinality(MixedKnown(t)), Cardinality(AdvKnown4(t)), Cardinality(PlcKnown5(t))>>)
   /\ i' = i + 1
 Spec == Init /\ [][Next]_i
 =============================================================================
